@@ -60,8 +60,9 @@ func runC10(c *Ctx) {
 		ok  bool
 	}
 	covered := map[string]map[string]bool{}
+	during := map[string]bool{} // functions that run while the pre-check is still accumulating
 	for _, e := range []string{VT, V2T} {
-		covered[e] = precheckCovered(c, ge, e)
+		covered[e] = precheckCovered(c, ge, e, during)
 	}
 	c.Extra("overflow_precheck_terms_v1", sortedKeys(covered[VT]))
 	c.Extra("overflow_precheck_terms_v2", sortedKeys(covered[V2T]))
@@ -84,6 +85,17 @@ func runC10(c *Ctx) {
 						cov = covered[V2T]
 					}
 					ok, why = arithCovered(s, cov)
+					// arithmetic executed while the pre-check is still summing cannot rely on its verdict: it needs
+					// its own overflow test on the same operands
+					inPre := false
+					for _, f := range s.Chain {
+						if during[f] {
+							inPre = true
+						}
+					}
+					if inPre && ok && strings.HasPrefix(s.Expr, "Add ") {
+						ok, why = precheckLocal(s)
+					}
 				}
 				if s.Kind == "panic" {
 					ok, why = lookupPanicPaired(s)
@@ -207,7 +219,7 @@ func c10GuardRows(c *Ctx) {
 
 // precheckCovered: the Currency values that the transaction's overflow pre-check sums (arguments of
 // the accumulating closure / AddWithOverflow calls in the first validation step).
-func precheckCovered(c *Ctx, ge *GuardEngine, entry string) map[string]bool {
+func precheckCovered(c *Ctx, ge *GuardEngine, entry string, during map[string]bool) map[string]bool {
 	out := map[string]bool{}
 	cs, ok := ge.EntryCalls(entry)
 	if !ok {
@@ -235,6 +247,9 @@ func precheckCovered(c *Ctx, ge *GuardEngine, entry string) map[string]bool {
 		// the accumulating closure takes exactly one Currency and returns nothing
 		if cf.Callee.Signature.Params().Len() == 1 && cf.Callee.Signature.Results().Len() == 0 && typeName(cf.Callee.Signature.Params().At(0).Type()) == "types.Currency" {
 			out[cf.Args[len(cf.Args)-1]] = true // the accumulator may be a closure or a method of a sum type (receiver first)
+			for _, f := range cf.Chain[1:] {
+				during[f] = true
+			}
 		}
 	}
 	return out
@@ -393,4 +408,23 @@ func isIndexRecorder(fn *ssa.Function) bool {
 		}
 	}
 	return mapWrite && appends
+}
+
+// precheckLocal: a panicking a.Add(b) executed during the pre-check is dominated by the failed-overflow
+// branch of a.AddWithOverflow(b) on the same operands (in either order).
+func precheckLocal(s Sink) (bool, string) {
+	ops := strings.Split(s.Operand, " ⊕ ")
+	if len(ops) != 2 {
+		return false, "arithmetic inside the overflow pre-check without its own overflow test: " + short(s.Operand)
+	}
+	for _, cd := range s.Conds {
+		if cd.Op != "false" || !strings.HasSuffix(cd.L, "#1") || !strings.HasPrefix(cd.L, "call (types.Currency).AddWithOverflow(") {
+			continue
+		}
+		args := callArgs(strings.TrimSuffix(cd.L, "#1"))
+		if len(args) == 2 && ((args[0] == ops[0] && args[1] == ops[1]) || (args[0] == ops[1] && args[1] == ops[0])) {
+			return true, "executed during the pre-check, behind its own overflow test " + cd.String()
+		}
+	}
+	return false, "panicking arithmetic on " + short(s.Operand) + " runs while the overflow pre-check is still summing (its verdict is not yet known) and no AddWithOverflow test on the same operands dominates it"
 }
